@@ -32,7 +32,9 @@ Behaviour assumed (each item checked against pandas 3.0.6 under /venv/bin/python
   ``concat-axis1:index-equal``).  Then row i of the result is row i of every input side by side, the result carries the
   RangeIndex, the columns are those of the inputs in order (only the last input may contribute a block).
 * ``wf.round(k)``: element-wise decimal rounding (uninterpreted round<k>) of every float column / the block.
-* ``wf.values``: (n, p + m) array, the p named columns followed by the block (read-only, like DataFrame.values of the base model).
+* ``wf.values``: (n, p + m) array, the p named columns followed by the block.  Treated as read-only like ``DataFrame.values`` of the base model
+  (pandas 3 returns a fresh writeable array for a frame with several blocks; a store through ``.values`` is therefore reported as a raising
+  path by the model and left to the replay - no function under contract does that).
 * ``wf.shape``, ``wf.columns`` (only for a frame without block), ``wf[k]`` (column k of the block as a Series).
 Anything else on a wide frame is outside the model (EngineError -> UNDECIDED).
 """
